@@ -131,8 +131,6 @@ class Machine:
                 fn()
                 if inst.op_code not in (OpCode.END, OpCode.JSR, OpCode.JUMP):
                     self._reg.pc += 1
-            self._clock.stop()
-            self._vm_io.flush()
             logging.debug(
                 'Stopped, _keep_running = {}, _pc = {}, program_len = {}'
                 .format(
@@ -140,6 +138,11 @@ class Machine:
         except Exception as ex:
             logging.error("Machine stopped due to {} at instruction {}"
                           .format(ex, self._reg.pc))
+        finally:
+            # Also when the script failed: don't leave the clock thread
+            # running or half a line of output pending for the next script.
+            self._clock.stop()
+            self._vm_io.flush()
 
     def stop(self) -> None:
         self._keep_running = False
